@@ -38,10 +38,13 @@ TWO_IN = {"ops": [{"kind": "EW2", "ins": [0, 1], "outs": [2]}, {"kind": "SAMEIN0
 MUL1 = {"ops": [{"kind": "EW2", "ins": [0, 1], "outs": [2]}], "trole": ["act", "c", "act"], "gins": [0], "gouts": [2], "codes": ["MUL"]}
 MODELS = {"chain": _m(CHAIN), "fc_add": _m(FC_ADD), "two_in": _m(TWO_IN),
           # two signatures, calibrated one at a time (the tensors of the other signature keep their - possibly empty - entries)
-          "two_sig": _m(FC_ADD, MUL1),
+          "two_sig": dict(_m(FC_ADD, MUL1), sigtabrev=False),
+          "two_sig_table_reversed": dict(_m(FC_ADD, MUL1), sigtabrev=True),      # signature table not in subgraph order
           # a STATEFUL model: an RNN cell (unknown to the quantizer, state in a variable tensor) between two FULLY_CONNECTED ops;
           # "true per-sample min and max" are those of each sample run from the initial state
-          "stateful": dict(_m(dict(synth.STATEFUL_CHAIN, codes=["FULLY_CONNECTED", "RNN", "FULLY_CONNECTED"])), stateful=True)}
+          "stateful": dict(_m(dict(synth.STATEFUL_CHAIN, codes=["FULLY_CONNECTED", "RNN", "FULLY_CONNECTED"])), stateful=True),
+          # an INTEGER runtime tensor through a selected operator: its min/max are recorded and averaged like any other
+          "int32_transpose": dict(_m(dict(synth.INT32_TRANSPOSE, codes=["TRANSPOSE"])), int32=True)}
 
 
 def runtime_view(model):
@@ -90,11 +93,14 @@ def _replay(item):
   for sub in mdl["subs"]:
     modes.append([SRQ if on else NOQ for on in beh["sel"][k:k + len(sub["ops"])]])
     k += len(sub["ops"])
-  scn = {"subs": mdl["subs"], "mode": modes, "inmode": SRQ if beh["selIn"] else NOQ, "outmode": SRQ if beh["selOut"] else NOQ, "codes": mdl["codes"]}
+  scn = {"subs": mdl["subs"], "mode": modes, "inmode": SRQ if beh["selIn"] else NOQ, "outmode": SRQ if beh["selOut"] else NOQ, "codes": mdl["codes"],
+         "sigtabrev": mdl.get("sigtabrev")}
   if mdl.get("stateful"):
     if beh["sel"][1]:
       return {"model": mname, "beh": beh, "problems": [], "compared": 0, "need_cal": False}      # the RNN cell cannot be selected
     model, info = synth.stateful_chain(seed)
+  elif mdl.get("int32"):
+    model, info = synth.int32_transpose(seed)
   else:
     model, info = synth.build(scn, seed)
   acts, idx, _ = runtime_view(mdl)
@@ -107,6 +113,9 @@ def _replay(item):
   # sample k exists for every signature (a session feeds it to the signature it calibrates)
   data = []
   for k in range(nsamples):
+    if mdl.get("int32"):
+      data.append({0: {"x0": (rng.integers(-9, 10, size=info["shapes"][0][0]) * (1 + 3 * k) + k).astype(np.int32)}})
+      continue
     data.append({si: {"x%d" % i: (rng.normal(size=info["shapes"][si][t]) * (1.0 + 2.5 * k)).astype(np.float32) + np.float32(0.3 * k)
                       for i, t in enumerate(sub["gins"])} for si, sub in enumerate(mdl["subs"])})
   # true per-sample min/max from the harness's own interpreter run
